@@ -1032,6 +1032,31 @@ Fixpoint comp_prod (st : state) (lenv : loc) (x1 x2 : str) (items1 items2 : list
     end
   end.
 
+(* product (for .. for ..) like the equivalent nested loops: the second collection is evaluated for every element of the
+   first, in the scope that holds the first variable *)
+Fixpoint comp_prod2 (st : state) (lenv : loc) (x1 x2 : str) (items1 : list value) (c2 : expr) (w2 : Z) (v : expr) (cond : option expr)
+    (acc : list value) : state * (list value + outcome) :=
+  match items1 with
+  | [] => (st, inl acc)
+  | it :: t =>
+    let st0 := env_put st lenv x1 it in
+    let '(st1, o2) := ev st0 lenv c2 in
+    match operand o2 with
+    | inr bad => (st1, inr bad)
+    | inl cv2 =>
+      match comp_items st1 cv2 w2 with
+      | inr bad => (st1, inr bad)
+      | inl None => (st1, inr OUnm)
+      | inl (Some (st2, items2)) =>
+        let '(st3, r) := comp_loop st2 lenv x2 items2 v cond acc in
+        match r with
+        | inr bad => (st3, inr bad)
+        | inl acc' => comp_prod2 st3 lenv x1 x2 t c2 w2 v cond acc'
+        end
+      end
+    end
+  end.
+
 End Sem.
 
 (* ------------------------------------------------------------ the evaluator: every node applies its combinator to [eval f] *)
@@ -1369,6 +1394,15 @@ Fixpoint eval (fuel : nat) (st : state) (env : loc) (e : expr) {struct fuel} : s
       match operand o1 with
       | inr bad => (st1, bad)
       | inl cv1 =>
+        if negb par then
+          match comp_items st1 cv1 w1 with
+          | inl (Some (st3, items1)) =>
+            let '(st5, r) := comp_prod2 ev st3 lenv x1 x2 items1 c2 w2 v cond [] in
+            match r with inr bad => (st5, bad) | inl vals => finish_comp st5 kind vals end
+          | inl None => (st1, OUnm)
+          | inr bad => (st1, bad)
+          end
+        else
         let '(st2, o2) := ev st1 env c2 in
         match operand o2 with
         | inr bad => (st2, bad)
@@ -1385,20 +1419,21 @@ Fixpoint eval (fuel : nat) (st : state) (env : loc) (e : expr) {struct fuel} : s
                    | O => finish_comp st kind acc
                    | S k' =>
                      let st' := env_put (env_put st lenv x1 (nth_or_null items1 i)) lenv x2 (nth_or_null items2 i) in
-                     let '(st1, o) := ev st' lenv v in
-                     match operand o with
-                     | inr bad => (st1, bad)
-                     | inl val =>
-                       match cond with
-                       | None => go st1 (S i) k' (acc ++ [val])
-                       | Some c =>
-                         let '(st2, oc) := ev st1 lenv c in
-                         match operand oc with
-                         | inr bad => (st2, bad)
-                         | inl (VBool true) => go st2 (S i) k' (acc ++ [val])
-                         | inl (VBool false) => go st2 (S i) k' acc
-                         | inl _ => (st2, oerr)
-                         end
+                     let value_then (stc : state) :=
+                       let '(st1, o) := ev stc lenv v in
+                       match operand o with
+                       | inr bad => (st1, bad)
+                       | inl val => go st1 (S i) k' (acc ++ [val])
+                       end in
+                     match cond with
+                     | None => value_then st'
+                     | Some c =>
+                       let '(st2, oc) := ev st' lenv c in
+                       match operand oc with
+                       | inr bad => (st2, bad)
+                       | inl (VBool true) => value_then st2
+                       | inl (VBool false) => go st2 (S i) k' acc
+                       | inl _ => (st2, oerr)
                        end
                      end
                    end) st4 O n []
